@@ -240,6 +240,19 @@ end Andes.Tds
 
 namespace Andes.Tds
 
+/-- the custom-event half of `do_switch` touches only its own bookkeeping -/
+theorem doSwitch'_spec (c : Cfg ℚ) (ok : CfgOk c) (s : St ℚ)
+    (hpe : ∀ j, s.idx ≤ j → ∀ x, c.sw[j]? = some x → s.t ≤ x) (hil : s.idx ≤ c.sw.length) :
+    let s' := doSwitch' c s
+    s'.t = s.t ∧ s'.h = s.h ∧ s'.deltat = s.deltat ∧ s'.niter = s.niter ∧ s'.converged = s.converged ∧
+    s'.busted = s.busted ∧ s'.stamps = s.stamps ∧ s'.dmin = s.dmin ∧ s'.dmax = s.dmax ∧ s'.fixt = s.fixt ∧
+    s'.kcount = s.kcount ∧ s'.idx ≤ c.sw.length ∧
+    (∀ x, c.sw[s'.idx]? = some x → s.t < x) ∧
+    ((s'.idx = s.idx ∧ s'.fired = s.fired) ∨
+     (s'.idx = s.idx + 1 ∧ s'.fired = s.idx :: s.fired ∧ c.sw[s.idx]? = some s.t)) := by
+  have h := doSwitch_spec c ok s hpe hil
+  simpa only [doSwitch', customSwitch] using h
+
 /-- what `calc_h` guarantees when no switch time has to be skipped -/
 theorem calcH_core (c : Cfg ℚ) (ok : CfgOk c) (s : St ℚ) (r : Bool)
     (hge : ∀ x, c.sw[s.idx]? = some x → s.t ≤ x)
@@ -295,10 +308,10 @@ theorem iterOk_inv (c : Cfg ℚ) (ok : CfgOk c) (s : St ℚ) (v : Verdict) (hI :
   obtain ⟨hbase, hnb⟩ := hG
   have hh : 0 < s.h := hI.hpos hnb hbase
   set s1 : St ℚ := { s with converged := true, niter := v.niter, stamps := s.t :: s.stamps,
-                            busted := s.busted || v.crit } with hs1
+                            busted := s.busted || v.crit, customPending := s.customPending || v.custom } with hs1
   obtain ⟨e_t, e_h, e_d, e_n, e_c, e_b, e_st, e_dmin, e_dmax, e_fx, e_k, e_il, hgt, hcase⟩ :=
-    doSwitch_spec c ok s1 hI.pendEnd hI.idxLe
-  set s2 := doSwitch c s1 with hs2
+    doSwitch'_spec c ok s1 hI.pendEnd hI.idxLe
+  set s2 := doSwitch' c s1 with hs2
   have hsz2 : SzOk c s2 := ⟨by rw [e_dmin]; exact hI.sz.dmin_pos, by rw [e_dmin, e_dmax]; exact hI.sz.dmin_le,
     by rw [e_fx]; exact hI.sz.fix_pos⟩
   have ht2 : s2.t = s.t := e_t
@@ -385,7 +398,8 @@ namespace Andes.Tds
 theorem iterFail_inv (c : Cfg ℚ) (ok : CfgOk c) (s : St ℚ) (v : Verdict) (hI : Inv c s) (hG : Guard c s) :
     Inv c (iterFail c s v false) := by
   obtain ⟨hbase, hnb⟩ := hG
-  set s1 : St ℚ := { s with converged := false, niter := v.niter, t := s.t - s.h, busted := s.busted || v.nan }
+  set s1 : St ℚ := { s with converged := false, niter := v.niter, t := s.t - s.h, busted := s.busted || v.nan,
+                            customPending := s.customPending || v.custom }
     with hs1
   have hgt1 : ∀ x, c.sw[s1.idx]? = some x → s1.t < x := fun x hx => hI.pendBase hnb s.idx (le_refl _) x hx
   obtain ⟨k_t, k_st, k_f, k_i, k_k, k_n, k_c, k_b, k_h0, k_sz, k_pend, k_d, k_hp, k_tf⟩ :=
